@@ -541,10 +541,10 @@ Proof. split; [exact TrReg.regs_at_init|split; [intros k _; reflexivity|vm_compu
    reads, a value outside int is the error EOverflow); ex_search is not translated, so the statements are for address
    strings without '/' and '?' (TrExAddr.lineno_body_ok / region_body_ok are the same statements for any `call` that
    answers ex_search the way a search oracle says).  The model is the position-based one of CapDefs.v (ex_lineno with the
-   mark table of the struct and the search oracle) and TrExAddr.region_full (CapDefs.ex_region with beg and end kept when
+   mark table of the struct and the search oracle) and ExAddrDefs.region_full (CapDefs.ex_region with beg and end kept when
    the address is rejected: ec_insert/ec_put/ec_read look at them); lineno_fit / region_fit are the exact conditions
    under which atoi(..), atoi(..) - 1, n += atoi(..), lbuf_len(xb) - 1, ex_lineno(..) + 1, xrow + 1 stay inside int. *)
-From NV Require CapDefs CLiteTac TrExAddr.
+From NV Require CapDefs CLiteTac ExAddrDefs TrExAddr.
 
 (* ex_lineno(&p), p at any position i of any address string (any bytes) without a search: number (the digit loop / atoi),
    `.`, `$`, 'x (lbuf_jump on the mark table in memory), then the +n -n offsets.  The model returns (n, j); the call
@@ -555,7 +555,7 @@ Theorem C06_tr_ex_lineno : forall m bs bn bl s i xrow len gbufs lblk search d fu
   nth_error m GenCFuncs.G_bufs = Some gbufs -> nth_error gbufs TrExAddr.BUFS_LB = Some (CLite.VPtr bl 0) ->
   nth_error m bl = Some lblk -> nth_error lblk TrLbufBase.L_ln_n = Some (CLite.VInt len) -> TrLbufMarks.marks_ints lblk ->
   bs <> bn /\ GenCFuncs.G_xrow <> bn /\ GenCFuncs.G_bufs <> bn /\ bl <> bn -> TrExAddr.int_ok xrow -> TrExAddr.int_ok len ->
-  TrExAddr.nosearch s -> (i <= length s)%nat -> (2 * S (length s) <= fuel)%nat ->
+  ExAddrDefs.nosearch s -> (i <= length s)%nat -> (2 * S (length s) <= fuel)%nat ->
   exists n j, CapDefs.ex_lineno len (TrExAddr.mark_of lblk) search xrow s i = CapDefs.Ok (n, j) /\ (i <= j)%nat /\ (j <= length s)%nat /\
     (TrExAddr.lineno_fit len (TrExAddr.mark_of lblk) search xrow s i ->
      exists j' nb, CLite.callf GenCFuncs.cprog fuel (S (S (S d))) GenCFuncs.F_ex_lineno [CLite.VPtr bn 0] m
@@ -575,8 +575,8 @@ Theorem C06_tr_ex_region : forall m bs bb be bl s xrow len gbufs lblk vb0 e0 sea
   nth_error m bl = Some lblk -> nth_error lblk TrLbufBase.L_ln_n = Some (CLite.VInt len) -> TrLbufMarks.marks_ints lblk ->
   nth_error m GenCFuncs.G_lit_25_1 = Some GenCFuncs.gb_lit_25_1 -> TrExAddr.rdist bs bb be bl ->
   TrExAddr.int_ok xrow -> TrExAddr.int_ok len -> TrExAddr.int_ok e0 -> 2 * Z.of_nat (S (length s)) <= 2147483647 ->
-  TrExAddr.nosearch s -> (2 * S (length s) <= fuel)%nat ->
-  exists r, TrExAddr.region_full len (CapDefs.ex_lineno len (TrExAddr.mark_of lblk) search) s xrow = CapDefs.Ok r /\
+  ExAddrDefs.nosearch s -> (2 * S (length s) <= fuel)%nat ->
+  exists r, ExAddrDefs.region_full len (CapDefs.ex_lineno len (TrExAddr.mark_of lblk) search) s xrow = CapDefs.Ok r /\
     (TrExAddr.region_fit len (TrExAddr.mark_of lblk) search s xrow ->
      exists m', CLite.callf GenCFuncs.cprog fuel (S (S (S (S d)))) GenCFuncs.F_ex_region [CLite.VPtr bs 0; CLite.VPtr bb 0; CLite.VPtr be 0] m
                 = CLite.Ok (CLite.VInt (CLite.b2z (fst (fst (fst r)))), m') /\
@@ -601,9 +601,9 @@ Example C06_tr_addr_nonvacuous :
    nth_error m bl = Some (TrExAddr.lbuf_blk 5) /\ nth_error (TrExAddr.lbuf_blk 5) TrLbufBase.L_ln_n = Some (CLite.VInt 5) /\
    TrLbufMarks.marks_ints (TrExAddr.lbuf_blk 5) /\
    nth_error m GenCFuncs.G_lit_25_1 = Some GenCFuncs.gb_lit_25_1 /\ TrExAddr.rdist (S bl) (S (S bl)) (S (S (S bl))) bl /\
-   TrExAddr.nosearch a /\
+   ExAddrDefs.nosearch a /\
    TrExAddr.region_fit 5 (TrExAddr.mark_of (TrExAddr.lbuf_blk 5)) TrExAddr.search0 a 0) /\
-  TrExAddr.region_full 5 (CapDefs.ex_lineno 5 (TrExAddr.mark_of (TrExAddr.lbuf_blk 5)) TrExAddr.search0) a 0 = CapDefs.Ok (false, 1, 4, 0) /\
+  ExAddrDefs.region_full 5 (CapDefs.ex_lineno 5 (TrExAddr.mark_of (TrExAddr.lbuf_blk 5)) TrExAddr.search0) a 0 = CapDefs.Ok (false, 1, 4, 0) /\
   TrExAddr.run_region 5 0 (map Z.of_N a) = CLite.Ok (0, 1, 4, 0) /\
   TrExAddr.run_region 5 0 [50; 59; 43; 49] = CLite.Ok (0, 1, 3, 1) /\
   TrExAddr.run_region 5 0 [48] = CLite.Ok (0, 0, 0, 0) /\
@@ -651,7 +651,7 @@ Theorem C06_tr_ex_region_rel : forall ext m bs bb be bl s xrow len gbufs lblk vb
   nth_error m GenCFuncs.G_lit_25_1 = Some GenCFuncs.gb_lit_25_1 -> TrExAddr.rdist bs bb be bl ->
   TrExAddr.int_ok xrow -> TrExAddr.int_ok len -> TrExAddr.int_ok e0 -> 2 * Z.of_nat (S (length s)) <= 2147483647 ->
   TrExAddr.search_ext ext search bs (length m) s -> (2 * S (length s) <= fuel)%nat ->
-  exists r, TrExAddr.region_full len (CapDefs.ex_lineno len (TrExAddr.mark_of lblk) search) s xrow = CapDefs.Ok r /\
+  exists r, ExAddrDefs.region_full len (CapDefs.ex_lineno len (TrExAddr.mark_of lblk) search) s xrow = CapDefs.Ok r /\
     (TrExAddr.region_fit len (TrExAddr.mark_of lblk) search s xrow ->
      exists m', TrExAddr.callfx ext fuel (S (S (S (S d)))) GenCFuncs.F_ex_region [CLite.VPtr bs 0; CLite.VPtr bb 0; CLite.VPtr be 0] m
                 = CLite.Ok (CLite.VInt (CLite.b2z (fst (fst (fst r)))), m') /\
@@ -685,4 +685,61 @@ Example C06_tr_search_nonvacuous :
 Proof.
   split; [|vm_compute; reflexivity].
   intros bs bn s. split; [intros; reflexivity|]. intros xr i Hi. cbn [snd]. lia.
+Qed.
+
+(* the same against the list-based model of THIS file (ExDefs.ex_lineno / ExDefs.ex_region, what C06_resolve_bounds,
+   C06_frame, C06_address_semantics ... are about): TrExAddr.v composed with the model bridge ExCapAddr.v (region_bridge:
+   for every NUL-free address string without a search and every editor state, ExDefs.ex_region returns what region_full
+   returns over the state's buffer length, current line and mark rows, and changes the state only in xrow).  The editor
+   state st supplies length, current line and mark rows; marks_rep says that mark[] of the struct lbuf in memory holds
+   those rows.  R = (rejected, beg, end, state after): the translated ex_region returns 1/0 and stores beg, end and the
+   new current line exactly as the model of C06 says. *)
+From NV Require TrExAddrEx.
+Theorem C06_tr_ex_region_model : forall rvalid rfind (st : st) m bs bb be bl s gbufs lblk vb0 e0 d fuel,
+  CLiteProps.str_at m bs s -> nonul s -> CLiteProps.cell_at m GenCFuncs.G_xrow (xrow st) ->
+  nth_error m bb = Some [vb0] -> nth_error m be = Some [CLite.VInt e0] ->
+  nth_error m GenCFuncs.G_bufs = Some gbufs -> nth_error gbufs TrExAddr.BUFS_LB = Some (CLite.VPtr bl 0) ->
+  nth_error m bl = Some lblk -> nth_error lblk TrLbufBase.L_ln_n = Some (CLite.VInt (slen st)) ->
+  TrLbufMarks.marks_ints lblk -> TrLbufMarks.marks_rep lblk (marks (lb st)) ->
+  nth_error m GenCFuncs.G_lit_25_1 = Some GenCFuncs.gb_lit_25_1 -> TrExAddr.rdist bs bb be bl ->
+  TrExAddr.int_ok (xrow st) -> TrExAddr.int_ok (slen st) -> TrExAddr.int_ok e0 -> 2 * Z.of_nat (S (length s)) <= 2147483647 ->
+  ExAddrDefs.nosearch s -> (2 * S (length s) <= fuel)%nat ->
+  TrExAddr.region_fit (slen st) (TrExAddr.mark_of lblk) TrExAddr.search0 s (xrow st) ->
+  let R := ex_region rvalid rfind s st in
+  exists m', CLite.callf GenCFuncs.cprog fuel (S (S (S (S d)))) GenCFuncs.F_ex_region [CLite.VPtr bs 0; CLite.VPtr bb 0; CLite.VPtr be 0] m
+             = CLite.Ok (CLite.VInt (CLite.b2z (fst (fst (fst R)))), m') /\
+    nth_error m' bb = Some [CLite.VInt (snd (fst (fst R)))] /\ nth_error m' be = Some [CLite.VInt (snd (fst R))] /\
+    CLiteProps.cell_at m' GenCFuncs.G_xrow (xrow (snd R)) /\ lb (snd R) = lb st /\
+    (forall b', (b' < length m)%nat -> b' <> bb -> b' <> be -> b' <> GenCFuncs.G_xrow -> nth_error m' b' = nth_error m b').
+Proof. exact TrExAddrEx.tr_ex_region_model. Qed.
+Print Assumptions C06_tr_ex_region_model.
+
+Theorem C06_tr_ex_lineno_model : forall rvalid rfind (st : st) m bs bn bl s i gbufs lblk d fuel,
+  CLiteProps.str_at m bs s -> CLiteProps.bytes_lt256 s -> nth_error m bn = Some [CLite.VPtr bs (Z.of_nat i)] ->
+  CLiteProps.cell_at m GenCFuncs.G_xrow (xrow st) ->
+  nth_error m GenCFuncs.G_bufs = Some gbufs -> nth_error gbufs TrExAddr.BUFS_LB = Some (CLite.VPtr bl 0) ->
+  nth_error m bl = Some lblk -> nth_error lblk TrLbufBase.L_ln_n = Some (CLite.VInt (slen st)) ->
+  TrLbufMarks.marks_ints lblk -> TrLbufMarks.marks_rep lblk (marks (lb st)) ->
+  bs <> bn /\ GenCFuncs.G_xrow <> bn /\ GenCFuncs.G_bufs <> bn /\ bl <> bn -> TrExAddr.int_ok (xrow st) -> TrExAddr.int_ok (slen st) ->
+  ExAddrDefs.nosearch s -> (i <= length s)%nat -> (2 * S (length s) <= fuel)%nat ->
+  TrExAddr.lineno_fit (slen st) (TrExAddr.mark_of lblk) TrExAddr.search0 (xrow st) s i ->
+  let R := ex_lineno rvalid rfind st (skipn i s) in
+  exists j' nb, CLite.callf GenCFuncs.cprog fuel (S (S (S d))) GenCFuncs.F_ex_lineno [CLite.VPtr bn 0] m
+                = CLite.Ok (CLite.VInt (fst (fst R)), (CLiteProps.upd m bn [CLite.VPtr bs (Z.of_nat j')] ++ [[CLite.VInt nb]])%list) /\
+                (snd (fst R) = skipn j' s \/ fst (fst R) = -2) /\ (i <= j')%nat /\ (j' <= length s)%nat /\ snd R = st.
+Proof. exact TrExAddrEx.tr_ex_lineno_model. Qed.
+Print Assumptions C06_tr_ex_lineno_model.
+
+(* non-vacuity: on a state with five lines, current line 0 and no mark set the model of this file resolves `2,$-1` to (1, 4) -- what the
+   translated ex_region stored in C06_tr_addr_nonvacuous -- and `0` to the empty range (0, 0) *)
+Example C06_tr_model_nonvacuous :
+  let st0 := mkst (mklb (number_lines [[97]; [98]; [99]; [100]; [101]]%N 0) (repeat (-1, None) NMARKS) [] 0 1 0 0 5) 0 [] [] 0 [] [] false true 0 None 0%N in
+  slen st0 = 5 /\ xrow st0 = 0 /\
+  TrLbufMarks.marks_rep (TrExAddr.lbuf_blk 5) (marks (lb st0)) /\
+  (let R := ex_region (fun _ => true) (fun _ _ _ => None) [50; 44; 36; 45; 49]%N st0 in (fst (fst (fst R)), snd (fst (fst R)), snd (fst R), xrow (snd R))) = (false, 1, 4, 0) /\
+  (let R := ex_region (fun _ => true) (fun _ _ _ => None) [48]%N st0 in (fst (fst (fst R)), snd (fst (fst R)), snd (fst R))) = (false, 0, 0).
+Proof.
+  cbv zeta. split; [vm_compute; reflexivity|]. split; [vm_compute; reflexivity|].
+  split. { split; [vm_compute; reflexivity|]. intros k Hk. do 32 (destruct k as [|k]; [vm_compute; reflexivity|]). lia. }
+  split; vm_compute; reflexivity.
 Qed.
